@@ -290,6 +290,10 @@ class BaseInterpolatablePreProcessor:
             _GlyphSet.from_layer(ufo, layerName, copy=not inplace)
             for ufo, layerName in zip_strict(ufos, layerNames)
         ]
+        # make the instantiator interpolate from the (copied) glyph sets right away:
+        # until the first filter reported a modification it would otherwise still
+        # hand out the caller's own glyph objects, which filters then edit in place
+        self._update_instantiator()
         if skipExportGlyphs:
             from ufo2ft.filters.skipExportGlyphs import SkipExportGlyphsIFilter
 
